@@ -70,7 +70,7 @@ class ValueGen:
                 if len(out) >= n:
                     break
                 k = self.gen(t.key)
-                if k in seen:
+                if k != k or k in seen:      # (NaN is not a usable key: it equals nothing, itself included)
                     continue
                 seen.add(k)
                 out.append((k, self.gen(t.value)))
